@@ -187,7 +187,7 @@ impl Property for C12 {
     }
 
     fn rule(&self) -> &'static str {
-        "case = (1..4 files of generated byte content incl. CRLF, empty lines, lines over several 8 KiB refills, missing final newline, empty files; statement SELECT input / COUNT(*) / join whose joined file is the file under test (rows and, through [DISTINCT] COUNT(*) over the join, their number; for a third of the cases on an engine that has loaded its joined table once before); read script with short reads and EINTR; read granularity). Variants: transparent (faults must be invisible), concat (k newline-terminated files vs their concatenation), badbyte (the undecodable line's position is swept over EVERY line of every file of the case: fault enumeration per scenario), eio (EIO swept over every read of the run). Non-trivial iff >=2 lines and (>=2 files or >=1 fault fired inside the data); distinct by schedule signature + content hash."
+        "case = (1..4 files of generated byte content incl. CRLF, empty lines, lines over several 8 KiB refills, missing final newline, empty files; statement SELECT input / COUNT(*) / join whose joined file is the file under test (rows and, through [DISTINCT] COUNT(*) over the join, their number; for a third of the cases on an engine that has loaded its joined table once before); read script with short reads and EINTR; read granularity). Variants: transparent (faults must be invisible), concat (k newline-terminated files vs their concatenation), badbyte (the undecodable line's position is swept over EVERY line of every file of the case, for the OUTER JOIN kind over every line of its joined file: fault enumeration per scenario), eio (EIO swept over every read of the run). Non-trivial iff >=2 lines and (>=2 files or >=1 fault fired inside the data); distinct by schedule signature + content hash."
     }
 
     fn assumptions(&self) -> Vec<String> {
@@ -330,7 +330,7 @@ impl Property for C12 {
         let mut out = Outcome::default();
         let kind = jstr(case, "kind");
         // the outer kind is about presentation of the main lines only: no bad-byte / EIO sweeps there
-        let variant = if kind == "outer" && jstr(case, "variant") != "concat" { "transparent".to_owned() } else { jstr(case, "variant") };
+        let variant = if kind == "outer" && jstr(case, "variant") != "concat" && jstr(case, "variant") != "badbyte" { "transparent".to_owned() } else { jstr(case, "variant") };
         let outer_joined = jbytes(case, "outer_joined");
         OUTER_JOINED.with(|j| *j.borrow_mut() = outer_joined.clone());
         PIPE_INPUTS.with(|p| p.set(jbool(case, "pipe")));
@@ -479,6 +479,10 @@ impl Property for C12 {
                 let style = jusize(case, "bad_style", 0);
                 let mut global = 0usize;
                 for (fi, f) in files.iter().enumerate() {
+                    if kind == "outer" {
+                        // for the OUTER JOIN kind the sweep is over its joined file (below)
+                        break;
+                    }
                     let lines = model_lines(f);
                     let final_nl = f.last() == Some(&b'\n');
                     for li in 0..lines.len() {
@@ -582,6 +586,58 @@ impl Property for C12 {
                         }
                     }
                     global += lines.len();
+                }
+                if kind == "outer" {
+                    // the same sweep over the joined file of the OUTER JOIN: an undecodable joined line is either reported
+                    // or it alone is missing; the other joined lines keep finding their partners
+                    let jlines = model_lines(&outer_joined);
+                    let j_final_nl = outer_joined.last() == Some(&b'\n');
+                    for li in 0..jlines.len() {
+                        let mut bad_lines = jlines.clone();
+                        bad_lines[li] = vec![0xFF, b'z'];
+                        OUTER_JOINED.with(|j| *j.borrow_mut() = gen::join_lines(&bad_lines, j_final_nl));
+                        let label = format!("badbyte joined line#{}", li);
+                        let r = self.execute(&mut out, &label, &kind, &files, &steps, &read_mode, false, &features);
+                        OUTER_JOINED.with(|j| *j.borrow_mut() = outer_joined.clone());
+                        let r = match r {
+                            Some(r) => r,
+                            None => return out,
+                        };
+                        out.fault("bad_byte", 1);
+                        let mut partners = model(&[outer_joined.clone()]);
+                        if li < partners.len() {
+                            partners.remove(li);
+                        }
+                        let mut expect: Vec<Vec<u8>> = Vec::new();
+                        for l in &m {
+                            let c = partners.iter().filter(|p| *p == l).count().max(1);
+                            for _ in 0..c {
+                                expect.push(l.clone());
+                            }
+                        }
+                        let values = r.values.clone().unwrap_or_default();
+                        match &r.status {
+                            Status::Ok => {
+                                if values != expect {
+                                    out.violate(
+                                        "c12.dropped_after_bad_line",
+                                        format!("undecodable line #{} of the joined file: run returned Ok, query saw {} but with the well-formed joined lines it is {}", li, lossy(&values), lossy(&expect)),
+                                        features.clone(),
+                                    );
+                                }
+                            }
+                            Status::Err(_) => {
+                                if !values.is_empty() {
+                                    out.violate("c12.wrong_lines", format!("undecodable line #{} of the joined file: error reported after records {} were printed", li, lossy(&values)), features.clone());
+                                }
+                            }
+                            _ => {}
+                        }
+                        out.probe("bad_byte_in_outer_joined_file", 1);
+                        if out.violation.is_some() {
+                            return out;
+                        }
+                    }
                 }
             }
             "eio" => {
